@@ -1,4 +1,5 @@
 import Gofasta.Lemmas.TopK
+import Gofasta.Lemmas.SortSpec
 import Gofasta.Lemmas.Reorder
 import Gofasta.Model.Closest
 import Gofasta.Spec.Closest
@@ -15,6 +16,14 @@ top K is ever lost at the capacity boundary, and ties keep file order. -/
 theorem topK (lt : Hit → Hit → Bool) (hS : SWO lt) (K : Nat) (hK : 0 < K) (hits : List Hit) :
     topKG lt K hits = (sortStable lt hits).take K :=
   topK_spec hS K hK hits
+
+/-- **C06.topK (declarative)** — "the stable sort" is not a choice of algorithm: any list that is a permutation of
+the target file, ordered by the strict weak order, and keeps tied targets in file order is that sort; so the
+catchment is the first K entries of *the* ranking by (order, file position) -/
+theorem topK_characterised (lt : Hit → Hit → Bool) (hS : SWO lt) (K : Nat) (hK : 0 < K) (hits ranked : List Hit)
+    (hp : ranked.Perm hits) (hs : Sorted lt ranked) (hst : ∀ z, ranked.filter (tied lt z) = hits.filter (tied lt z)) :
+    topKG lt K hits = ranked.take K := by
+  rw [topK lt hS K hK hits, sortStable_unique hS hits ranked hp hs hst]
 
 /-- the model's `findClosestN` is that catchment after the `-d` filter -/
 theorem findClosestN_eq (K : Nat) (maxd : Option (Nat × Nat)) (hits : List Hit) :
